@@ -6,7 +6,7 @@ model (ocaml/sendreq) is run on the same configuration, fault script and observe
 sleep lengths) and must produce the same attempts / flags / back-offs / result.  The property oracles (attempt bound,
 flag discipline, validation, no fabrication, error only when the budget is spent) are evaluated by the driver on the
 implementation itself."""
-import os, time, json, subprocess, re
+import os, time, json, subprocess, re, shutil, fcntl
 import vlib
 from vlib import Verdict
 
@@ -58,6 +58,10 @@ def main(tier, replay):
                "modelled, not verified: wall-clock effects (replica.attemptedTime / maxReplicaAttemptTime, region cache TTL, decay of Store.EstimatedWaitTime), health-check and store re-resolve goroutines, slow-score statistics beyond markAlreadySlow / first-sample reset, TiFlash; forwarding is modelled for a freshly loaded region (proxyTiKVIdx = -1)",
                "sleep lengths and random tie-breaks are oracle inputs of the model (observed values are fed back; the model only assumes sleep >= base/2 resp. base)",
                "scripted client.Client + mocktikv cluster + failpoints fastBackoffBySkipSleep/skipStoreCheckUntilHealth; back-off observations through the exported prometheus.Observer variables of package metrics"]}
+    # builds (Coq, extraction + OCaml, Go) write into shared directories: serialise them among concurrent ./check C10 runs
+    os.makedirs(vlib.BUILD, exist_ok=True)
+    lock = open(os.path.join(vlib.BUILD, "c10.lock"), "w")
+    fcntl.flock(lock, fcntl.LOCK_EX)
     gate = vlib.coq_gate(PID, AREAS, PROPS)
     cov.update(obligations=gate["obligations"], discharged=gate["discharged"], theorems=gate["theorems"],
                axioms={k: a for k, a in gate["axioms"].items() if a})
@@ -67,11 +71,24 @@ def main(tier, replay):
     okg, exe = vlib.go_build("sendreq", roots=ROOTS)
     stats, counts, samples, mism, ofails = {}, {}, [], [], []
     nruns = 0
+    if okg and okm:
+        pid = os.getpid()
+        priv = []
+        for src in (exe, modelrun):
+            dst = "%s.%d" % (src, pid)
+            shutil.copy2(src, dst)
+            priv.append(dst)
+    fcntl.flock(lock, fcntl.LOCK_UN)
+    lock.close()
     if not (okg and okm):
         why = (exe if not okg else modelrun)
         v.violation({"kind": "harness-build", "correspondence": "SendReq driver/model build against the current tree", "error": why}, has_input=False)
     else:
-        outf = os.path.join(vlib.BUILD, "c10-%s-%d.out" % (tier, vlib.SEED))
+        # private copies / private output file: another ./check C10 may run at the same time in the same build directory
+        # (it would truncate a shared output file and rebuild the shared binaries while they are in use)
+        exe, modelrun = priv
+        outf = os.path.join(vlib.BUILD, "c10-%s-%d-%d.out" % (tier, vlib.SEED, pid))
+        priv.append(outf)
         if replay:
             case = json.load(open(replay)).get("case", {})
             lines, err = batch(exe, env, "batch", [(case.get("cfg", "rt=L"), case.get("script", "-"))])
@@ -170,6 +187,11 @@ def main(tier, replay):
                     v.violation({"kind": "correspondence", "correspondence": "SendReq model vs RegionRequestSender.SendReqCtx (theorems C10_bounded_general, C10_flags, C10_no_fabrication rest on this model)",
                                  "case": {"cfg": m[0], "script": m[1], "rands": m[2]}, "implementation": m[3], "model": m[4],
                                  "what": "model and implementation disagree on attempts/flags/back-offs/result; %d neighbours evaluated, no property-oracle failure" % len(neigh)}, has_input=False)
+    for f in (priv if (okg and okm) else []):
+        try:
+            os.remove(f)
+        except OSError:
+            pass
     if tier == "thorough" and not proof_broken:
         okc, outc = vlib.coqchk(["Verif.SendReq.Props"])
         cov["coqchk"] = "ok" if okc else outc[-400:]
